@@ -16,6 +16,9 @@ LIB_DIRS = (
 CLIENT_DIRS = ('pySDC/projects', 'pySDC/tutorial', 'pySDC/playgrounds')
 
 
+_AST_CACHE = {}
+
+
 class AnalysisError(Exception):
     """The analysis itself is broken (anchor vanished, idiom not recognised, floor not met)."""
 
@@ -29,10 +32,15 @@ class Module:
             self.name = self.name[: -len('.__init__')]
         with open(self.path, 'r', encoding='utf-8') as fh:
             self.source = fh.read()
-        try:
-            self.tree = ast.parse(self.source, filename=self.path)
-        except SyntaxError as e:  # a file that does not parse breaks the analysis, it is not a violation
-            raise AnalysisError(f'{relpath} does not parse: {e}')
+        key = (relpath, hash(self.source))
+        tree = _AST_CACHE.get(key)
+        if tree is None:
+            try:
+                tree = ast.parse(self.source, filename=self.path)
+            except SyntaxError as e:  # a file that does not parse breaks the analysis, it is not a violation
+                raise AnalysisError(f'{relpath} does not parse: {e}')
+            _AST_CACHE[key] = tree  # trees are never modified by the rules (substitutions work on deep copies)
+        self.tree = tree
         self.imports = {}  # local name -> dotted target
         self.classes = {}
         self.functions = {}
